@@ -29,17 +29,33 @@ def op_create_chunks(t):
     try:
         names_c = ['c%d' % i for i in range(t['n_cues'])]
         names_o = ['o%d' % i for i in range(t['n_outs'])]
-        events = [([names_c[c] for c in cs], [names_o[o] for o in os_]) for cs, os_ in t['events']]
+        # the lines of the event file: `file_events` (+ a third column `freq`) when the task has a frequency
+        # column (then t['events'] is what the file MEANS: every line repeated freq times), else t['events']
+        events = [([names_c[c] for c in cs], [names_o[o] for o in os_]) for cs, os_ in t.get('file_events', t['events'])]
         path = os.path.join(d, 'events.tab.gz')
-        impl.write_event_file(path, events)
+        impl.write_event_file(path, events, freq=t.get('freq'))
         cue_map = {n: i for i, n in enumerate(names_c)}
         out_map = {n: i for i, n in enumerate(names_o)}
+        bdir = os.path.join(d, 'bin')
+        if t.get('stale_n'):
+            # an earlier, longer run of the real function into the same directory (no delays): its chunk
+            # files with the higher numbers are stale when the directory is used again with overwrite=True
+            spath = os.path.join(d, 'earlier.tab.gz')
+            impl.write_event_file(spath, [([names_c[i % len(names_c)]], [names_o[i % len(names_o)]])
+                                          for i in range(int(t['stale_n']))])
+            try:
+                preprocess.create_binary_event_files(spath, bdir, cue_map, out_map, n_jobs=2,
+                                                     events_per_file=t['per'], overwrite=True)
+            except Exception as e:  # noqa
+                r = impl.err(e)
+                r['stage'] = 'earlier run (stale files)'
+                return r
         _DELAYS = t.get('delays') or []
         _PER = per = t['per']
         # module attribute patch: inherited by the pool workers through fork
         preprocess._job_binary_event_file = _slow_job
-        bdir = os.path.join(d, 'bin')
         res = {}
+        stale_before = sorted(os.listdir(bdir), key=lambda f: int(f[9:-4])) if os.path.isdir(bdir) else None
         t0 = time.time()
         try:
             n = preprocess.create_binary_event_files(path, bdir, cue_map, out_map, n_jobs=t['n_jobs'],
@@ -49,6 +65,8 @@ def op_create_chunks(t):
         except Exception as e:  # noqa
             res = impl.err(e)
         res['seconds'] = round(time.time() - t0, 2)
+        if stale_before is not None:
+            res['stale_before'] = stale_before
         files = []
         if os.path.isdir(bdir):
             names = [f for f in os.listdir(bdir) if os.path.isfile(os.path.join(bdir, f))]
